@@ -783,12 +783,13 @@ var MixedFamilies = map[string]string{
 	"deep":    `v.meta.x != "1"`,
 	"dfilter": `meta.x != "1"`,
 	"ikin":    `"web" in v`,
+	"keyre":   `k == "k1"`,
 }
 
 // MixedElem returns the element of class c (T, F or E) for family fam.
 func MixedElem(fam string, c byte, j int) interface{} {
 	switch fam {
-	case "eq", "ieq", "neq":
+	case "eq", "ieq", "neq", "keyre":
 		switch c {
 		case 'T':
 			return 1
